@@ -512,8 +512,13 @@ def check(ctx: Ctx) -> list[RuleResult]:
         arg0 = pcall.args[0] if pcall.args else None
         if isinstance(arg0, ast.Name):
             arg0 = single_defs(put_fn.node).get(arg0.id)
-        if isinstance(arg0, ast.Tuple) and arg0.elts and isinstance(arg0.elts[-1], ast.Name):
-            futs.add(arg0.elts[-1].id)
+        if isinstance(arg0, ast.Tuple):
+            sd = single_defs(put_fn.node)
+            for el in arg0.elts:  # the element that is a future created here (wherever it sits in the entry)
+                if isinstance(el, ast.Name) and isinstance(sd.get(el.id), ast.Call) and norm(sd[el.id].func).endswith("create_future"):
+                    futs.add(el.id)
+            if not futs and arg0.elts and isinstance(arg0.elts[-1], ast.Name):
+                futs.add(arg0.elts[-1].id)
     if not futs:
         raise AnalysisError("send_cmd: the queue entry's future was not identified")
     waits = [n for n in own_nodes(sc.node) if isinstance(n, ast.Await) and any(isinstance(x, ast.Name) and x.id in futs for x in ast.walk(n.value))]
